@@ -114,16 +114,18 @@ class C01(Check):
             ev = [(i + 1, 0, T.ack(w)) for i, w in enumerate(wants)]
             yield T.mk_case(content, ch, options=opts, kind=("bufshort",), events=ev)
 
-    extra_bins = ("c01send", "c01cfg")
+    extra_bins = ("c01send", "c01cfg", "c01pkt")
 
     def extra_checks(self, tier, rng, report):
         # send failures towards the client: the retry loops against Tftp/SendFaults.v (C01: delivery within the
         # budget; C02: at most 1 + max_retries sends of one packet; C07/C09 subclass this class and skip it)
         if self.ident in ("C01", "C02"):
+            import c01_pkt
+            c01_pkt.pkt_checks(tier, rng, report, self.ident)
             import c01_send
             c01_send.send_checks(tier, rng, report)
-        if self.ident == "C01":
-            # what TftpServer.__init__ hands to the transfers (wrap value, limits): Tftp/ServerConfig.v
+        if self.ident in ("C01", "C02"):
+            # what the CLI wiring and TftpServer.__init__ hand to the transfers (wrap value, limits): Tftp/ServerConfig.v
             import c01_cfg
             c01_cfg.cfg_checks(tier, rng, report)
 
